@@ -18,3 +18,4 @@ def contract(*a, **k): pass
 def klass(*a, **k): pass
 def lemma(*a, **k): pass
 def contract_family(*a, **k): pass
+def record_override(*a, **k): pass
